@@ -17,7 +17,7 @@ CHECKS = {
    text="Exploration over well-formed programs x layouts x configurations; the oracle compares scans of input and output token by token.",
    note="Trusted: reference scanner; 'well-formed' = derivable from the harness grammar or a data-test seed that scans cleanly."),
  "C03": dict(
-   technique="runtime monitoring: fixpoint oracle F(F(x))==F(x)==F^3 with adversarial widths and perturbed literals; hook events (WrapFallback, Reflow, ChildCacheHitDuringReflow) give the signatures of known findings",
+   technique="runtime monitoring: fixpoint oracle F(F(x))==F(x)==F^3 with adversarial widths and perturbed literals, and the same claim through the real binary (pasfmt f; pasfmt --mode=check f; second run leaves bytes and mtime); hook events (WrapFallback, Reflow, ChildCacheHitDuringReflow) give the signatures of known findings",
    text="Exploration. Byte comparison of repeated executions of the real formatter under sampled configurations.",
    note="Trusted: 'well-formed' as in C02; known-finding classes listed in known_findings.txt blind the check to exactly those signatures."),
  "C04": dict(
@@ -65,11 +65,11 @@ CHECKS = {
    text="Exploration.",
    note="Trusted: nothing beyond the public parse result; 'well-formed' as in C02."),
  "C15": dict(
-   technique="runtime monitoring: differential execution with/without cursors and a token-relative position oracle using pasfmt's own tokenisation of the input and non-blank ordinals",
+   technique="runtime monitoring: differential execution with/without cursors and a token-relative position oracle using pasfmt's own tokenisation of the input and non-blank ordinals; the binary's CURSOR= line compared with the library, cursors dropped for multi-file runs",
    text="Exploration over all generators x cursor lists x configurations.",
    note="The unchanged-token clause is checked only when the output has the same non-blank characters as the input."),
  "C16": dict(
-   technique="runtime monitoring of the real binary: byte/mtime/inode observation of files around invocations in the three modes and all path forms; reference = stdin->stdout of the same binary",
+   technique="runtime monitoring of the real binary: byte/mtime/inode observation of files around invocations in the three modes and all path forms (also under legacy encodings); offline checker over strace-recorded syscall logs (no write-class syscall in stdout/check mode, ftruncate length == bytes written, no O_TRUNC); reference = stdin->stdout of the same binary",
    text="Exploration over contents (result shorter/longer/equal/empty) x modes x path forms x configurations, plus failing files (unreadable as user nobody, undecodable, missing).",
    note="Trusted: the stdin->stdout path of the binary as reference, as the property defines it."),
  "C17": dict(
